@@ -113,7 +113,20 @@ def parallel_guard_polarity(ctx, rep, rule):
         ok_par = all(taken for _, taken in ctrl) and all(_positive_conjunct(t, par) for t in outer)
         # the state comparisons
         cmps = [c for t, _ in ctrl for c in ast.walk(t) if isinstance(c, ast.Compare) and ("before" in ast.unparse(c) or "current" in ast.unparse(c) or "subcircuits" in ast.unparse(c))]
-        wrong = [c for c in cmps if isinstance(c.ops[0], (ast.Is, ast.Eq)) and not isinstance(c.comparators[0], ast.Constant)]
+        # sense of each comparison with the `not`s above it folded in (`not (a is b and c == d)` means "changed")
+        negated = set()
+
+        def _mark(e, neg):
+            if isinstance(e, ast.UnaryOp) and isinstance(e.op, ast.Not):
+                _mark(e.operand, not neg)
+            elif isinstance(e, ast.BoolOp):
+                for v in e.values:
+                    _mark(v, neg)
+            elif neg:
+                negated.add(id(e))
+        for t, _ in ctrl:
+            _mark(t, False)
+        wrong = [c for c in cmps if (isinstance(c.ops[0], (ast.Is, ast.Eq)) != (id(c) in negated)) and not isinstance(c.comparators[0], ast.Constant)]
         loc = f"{vb.path}:{r.lineno}"
         if not ok_par:
             rep.violation(rule, cons, f"`{ast.unparse(outer[0])}` does not restrict the refusal to parallel blocks with several branches: ordinary sequential programs (prepare_all; ...; measure_all) are rejected, or parallel ones are not checked", loc)
